@@ -1184,6 +1184,8 @@ func TestVerif(t *testing.T) {
 			{"encreq", gEncryptionRequest}, {"encresp", gEncryptionResponse}, {"handshake", gHandshake},
 			{"setcompression", gSetCompression}, {"loginplugin", gLoginPlugin}, {"disconnect", gDisconnect},
 			{"keepalive", gKeepAlive}, {"status", gStatus}, {"transfer", gTransfer}, {"remove", gRemove},
+			// gap review: constructors and nil inputs (c07_ctor_test.go)
+			{"brand", gBrand}, {"register", gRegister}, {"ctormisc", gCtorMisc},
 		}
 		var protos []int
 		for _, v := range version.SupportedVersions {
